@@ -192,27 +192,24 @@ func (v *Version) Compare(other *Version) int {
 		return compareInt(v.patch, other.patch)
 	}
 
-	// Handle pseudo-version comparison
-	if v.pseudo != nil && other.pseudo != nil {
-		return v.pseudo.timestamp.Compare(other.pseudo.timestamp)
-	}
-	if v.pseudo != nil && other.pseudo == nil {
-		// Pseudo-versions are pre-release, so they come before releases
-		if other.prerelease == "" {
-			return -1
-		}
-		// Compare with prerelease
-		return comparePrerelease("pseudo", other.prerelease)
-	}
-	if v.pseudo == nil && other.pseudo != nil {
-		if v.prerelease == "" {
-			return 1
-		}
-		return comparePrerelease(v.prerelease, "pseudo")
-	}
-
 	// Compare prerelease according to semver rules
-	return comparePrerelease(v.prerelease, other.prerelease)
+	return comparePrerelease(v.semverPrerelease(), other.semverPrerelease())
+}
+
+// semverPrerelease returns the pre-release part of the version's SemVer spelling.
+// A pseudo-version is a pre-release whose identifiers are spelled out in the original text.
+func (v *Version) semverPrerelease() string {
+	if v.pseudo == nil {
+		return v.prerelease
+	}
+	s := strings.TrimSpace(v.original)
+	if i := strings.Index(s, "+"); i >= 0 {
+		s = s[:i]
+	}
+	if i := strings.Index(s, "-"); i >= 0 {
+		return s[i+1:]
+	}
+	return ""
 }
 
 // String returns the string representation of the version
@@ -244,18 +241,32 @@ func comparePrerelease(a, b string) int {
 		return -1
 	}
 
-	// Special handling for pseudo-versions
-	if a == "pseudo" && b != "pseudo" {
-		return -1
+	// Compare dot-separated identifiers left to right (SemVer 2.0.0 section 11)
+	aParts := strings.Split(a, ".")
+	bParts := strings.Split(b, ".")
+	for i := 0; i < len(aParts) && i < len(bParts); i++ {
+		if c := compareIdentifier(aParts[i], bParts[i]); c != 0 {
+			return c
+		}
 	}
-	if a != "pseudo" && b == "pseudo" {
+	return compareInt(len(aParts), len(bParts))
+}
+
+// compareIdentifier compares two pre-release identifiers: numeric ones numerically and below
+// alphanumeric ones, alphanumeric ones in ASCII order.
+func compareIdentifier(a, b string) int {
+	aNum, bNum := isNumeric(a), isNumeric(b)
+	switch {
+	case aNum && bNum:
+		// no leading zeros are expected; a longer digit string is the larger number
+		if len(a) != len(b) {
+			return compareInt(len(a), len(b))
+		}
+	case aNum:
+		return -1
+	case bNum:
 		return 1
 	}
-	if a == "pseudo" && b == "pseudo" {
-		return 0
-	}
-
-	// Lexicographic comparison for prereleases
 	if a < b {
 		return -1
 	}
@@ -263,4 +274,17 @@ func comparePrerelease(a, b string) int {
 		return 1
 	}
 	return 0
+}
+
+// isNumeric reports whether s consists only of ASCII digits.
+func isNumeric(s string) bool {
+	if s == "" {
+		return false
+	}
+	for i := 0; i < len(s); i++ {
+		if s[i] < '0' || s[i] > '9' {
+			return false
+		}
+	}
+	return true
 }
